@@ -375,6 +375,9 @@ type Terminal struct {
 	sigstop            bool
 	startChan          chan fitpad
 	killChan           chan bool
+	previewKiller      func()
+	previewStopped     bool
+	previewKillerMutex sync.Mutex
 	serverInputChan    chan []*action
 	keyChan            chan tui.Event
 	eventChan          chan tui.Event
@@ -4254,6 +4257,23 @@ func (t *Terminal) killPreview() {
 	}
 }
 
+// killPreviewNow synchronously kills the preview command that is running
+// and any that is started from now on
+func (t *Terminal) killPreviewNow() {
+	t.previewKillerMutex.Lock()
+	t.previewStopped = true
+	if t.previewKiller != nil {
+		t.previewKiller()
+	}
+	t.previewKillerMutex.Unlock()
+}
+
+func (t *Terminal) setPreviewKiller(killer func()) {
+	t.previewKillerMutex.Lock()
+	t.previewKiller = killer
+	t.previewKillerMutex.Unlock()
+}
+
 func (t *Terminal) cancelPreview() {
 	select {
 	case t.killChan <- false:
@@ -4474,6 +4494,13 @@ func (t *Terminal) Loop() error {
 				version++
 				// We don't display preview window if no match
 				if items[0] != nil {
+					// Do not create temporary files and start a command when the
+					// terminal is closing, and do not let it close in the meantime
+					t.previewKillerMutex.Lock()
+					if t.previewStopped {
+						t.previewKillerMutex.Unlock()
+						break
+					}
 					command, tempFiles := t.replacePlaceholder(commandTemplate, false, query, items)
 					cmd := t.executor.ExecCommand(command, true)
 					cmd.Env = env
@@ -4484,6 +4511,13 @@ func (t *Terminal) Loop() error {
 					eofChan := make(chan bool)
 					finishChan := make(chan bool, 1)
 					err := cmd.Start()
+					if err == nil {
+						t.previewKiller = func() {
+							util.KillCommand(cmd)
+							removeFiles(tempFiles)
+						}
+					}
+					t.previewKillerMutex.Unlock()
 					if err == nil {
 						reapChan := make(chan bool)
 						lineChan := make(chan eachLine)
@@ -4581,8 +4615,9 @@ func (t *Terminal) Loop() error {
 							reapChan <- true
 						}(version)
 
-						<-eofChan          // Goroutine 1 finished
-						cmd.Wait()         // NOTE: We should not call Wait before EOF
+						<-eofChan  // Goroutine 1 finished
+						cmd.Wait() // NOTE: We should not call Wait before EOF
+						t.setPreviewKiller(nil)
 						finishChan <- true // Tell Goroutine 3 to stop
 						<-reapChan         // Goroutine 2 and 3 finished
 						<-reapChan
@@ -4783,6 +4818,9 @@ func (t *Terminal) Loop() error {
 			})
 		}
 
+		// The process exits as soon as the coordinator sees EvtQuit. Make sure
+		// that the preview command is gone by then.
+		t.killPreviewNow()
 		t.eventBox.Set(EvtQuit, quitSignal{code, nil})
 		t.running.Set(false)
 		t.killPreview()
